@@ -2,7 +2,7 @@
    library by the check: known finding C09/not-idempotent:negative-power-of-sum-kept-unexpanded).
    e = ((x + y)**(-1) + z)**2 is well formed and canonical; expand(e) = z**2 + 2*z/(x+y) + (x+y)**(-2);
    expanding that again rewrites (x+y)**(-2) to (x**2 + 2*x*y + y**2)**(-1). *)
-From SE Require Import C09.ExpandGuardedOps C09.Examples Expr.Wf.
+From SE Require Import C09.ExpandGuardedOps C09.ExpandGuards C09.Examples Expr.Wf.
 Theorem C09_expand_idem_refuted :
   exists e r r2 : expr,
     wf e = true /\ canonical e = true /\ expand true e = Ok r /\ expand true r = Ok r2 /\ expr_eqb r r2 = false.
@@ -10,3 +10,19 @@ Proof.
   exists idem_witness. do 2 eexists. repeat split; try (vm_compute; reflexivity).
 Qed.
 Print Assumptions C09_expand_idem_refuted.
+(* second witness (same root cause: pow_expand / square_expand / mul_expand_two multiply already expanded terms with
+   pow() / mul() and do not expand the product): a NON-INTEGER power of a sum multiplied with itself becomes a
+   positive integer power of the sum, which stays unexpanded (known findings
+   C09/incomplete:integer-power-of-sum-from-fractional-power, C09/not-idempotent:integer-power-of-sum-from-fractional-power).
+   e = ((x + y)**(3/2) + z)**2; expand(e) = z**2 + 2*z*(x+y)**(3/2) + (x+y)**3, which is not `expanded`, and
+   expanding again multiplies (x+y)**3 out. *)
+Definition frac_witness : expr :=
+  EPow (EAdd (NInt 0) [(sz, NInt 1); (EPow x_plus_y (ENum (NRat 3 2)), NInt 1)]) (ei 2).
+Theorem C09_expand_complete_refuted :
+  exists e r r2 : expr,
+    wf e = true /\ canonical e = true /\ expand true e = Ok r /\ expanded r = false /\
+    expand true r = Ok r2 /\ expr_eqb r r2 = false.
+Proof.
+  exists frac_witness. do 2 eexists. repeat split; try (vm_compute; reflexivity).
+Qed.
+Print Assumptions C09_expand_complete_refuted.
